@@ -134,3 +134,11 @@ package generator
 // escapeQuotes: the body of strconv.Quote's result - Go-string-escaped text without raw line feeds
 //@ func escapeQuotes [C16]
 //@   ensures inL(result, NO_0a_STAR)
+
+// C16: "no recompilation needed" may only be answered when the Go code the two outputs belong to is the same
+// apart from the bodies of its string literals. skeleton is a ghost attribute of a generator output (the code
+// itself is not part of GeneratorOutput).
+//@ func HasChanged [C16]
+// the first output of a file is compared with the zero value (no source map): the file name then differs
+//@   requires updated.SourceMap != nil && implies(previous.SourceMap == nil, previous.Options.FileName != updated.Options.FileName)
+//@   ensures implies(!result, uf("skeleton", previous) == uf("skeleton", updated))
